@@ -426,6 +426,14 @@ class Registry:
         self.attr_hooks = {}
         self.setattr_hooks = {}
         self.lemmas = []
+        # one-line getters that are always interpreted in place (their body is the real code)
+        self.always_inline = {
+            "scenic.core.lazy_eval:needsSampling",
+            "scenic.core.lazy_eval:isLazy",
+            "scenic.core.lazy_eval:needsLazyEvaluation",
+            "scenic.core.lazy_eval:requiredProperties",
+            "scenic.core.lazy_eval:dependencies",
+        }
         self.trusted = []  # (name, text) trusted facts / stubs, listed in evidence
         self._clause_cache = {}
         for h in (
